@@ -464,6 +464,10 @@ def gen_borehole_config(
             else:
                 ref_angle = pi - phi + 2 * rotate
         yp = dist_vert * sin(ref_angle - rotate)
+        if ref_angle == phi:
+            # same quantity without the polar round trip (which turns 80 - 40 into 39.99999999999999 and loses a row
+            # of an exactly divisible lot): the coordinate of the vertex normal to the rows
+            yp = vert[1] * cos(rotate) - vert[0] * sin(rotate)
         if yp < lowest_vert_val:
             lowest_vert_val = yp
             lowest_vert = vert
